@@ -182,6 +182,7 @@ def oracle(case) -> list:
     fcfs_structure = BpSeq.from_string(ssref.bpseq_text(seq, pairs)).fcfs.structure
     out = []
     notes = []
+    consulted_any = [False]
     knotted = bool(comps)
 
     def cell(config, steps, via, tag):
@@ -212,6 +213,8 @@ def oracle(case) -> list:
             else:
                 verdict = "mixed"
                 case["_mixed"] = case.get("_mixed", 0) + 1
+            if met:
+                consulted_any[0] = True
             if len(met) > 1:
                 case["_multi_call"] = True
             if verdict is None:
@@ -238,7 +241,18 @@ def oracle(case) -> list:
         steps = [tuple(x[1:]) for x in script]
         for via in ("property", "convert"):
             cell(cfg, steps, via, f"{via}:sequence")
-    if notes and not out:
+    # a second molecule with the same stems but other letters and a longer 3' tail asks right afterwards: what it gets must
+    # be ITS notation (state remembered from one request to the next, keyed by the stems alone, would show here)
+    if knotted:
+        rot = {"A": "C", "C": "G", "G": "U", "U": "A"}
+        seq0, pairs0 = seq, pairs
+        seq = "".join(rot.get(c.upper(), "A") for c in seq0) + "AC"
+        fcfs_structure = fcfs_structure + ".."
+        for via in ("property", "convert"):
+            cell("cbc", [("ok", "unset")], via, f"{via}:twin-with-other-letters-and-tail")
+            cell("cbc", [("notsolved", "unset")], via, f"{via}:twin-with-other-letters-and-tail:notsolved")
+        seq = seq0
+    if notes and not out and not consulted_any[0]:
         raise HarnessError("cannot inject solver faults: " + "; ".join(notes[:3]))
     return out
 
